@@ -6,7 +6,10 @@ machine : an EL6002 channel model (initialisation after 0-k cycles, transmit
           cycle around the real Serial.update() of a slow sync group on the
           real EL6002 terminal class; the application side writes chunks of
           1-22 bytes (sometimes several before the next cycle) to the channel's
-          pipe and drains its receive pipe.
+          pipe and drains its receive pipe.  The terminal's other channel
+          is used by a second Serial device of the same group: either it is
+          never initialised, or it carries its own traffic (own model, own
+          application), the two devices updated in either order.
 oracle  : the concatenation of the chunks the model accepted equals what the
           application wrote - exactly once, in order, one request toggle per
           chunk, data and request unchanged until accepted; the bytes the
@@ -63,6 +66,12 @@ def strategy(tier):
         "cycles": st.lists(cycle, min_size=3, max_size=40),
         "noise": st.integers(0, 255),
         "stale": st.sampled_from([0, 0, 1, 2, 3]) | st.integers(0, 255),
+        # the terminal's other channel: never initialised, or with traffic
+        # of its own
+        "cycles2": st.none() | st.lists(cycle, min_size=3, max_size=40),
+        "init_delay2": st.integers(0, 3),
+        "stale2": st.sampled_from([0, 0, 1, 2, 3]),
+        "order": st.integers(0, 1),
     })
 
 
@@ -76,8 +85,9 @@ def run_case(case):
     term.pdo_in_off, term.pdo_out_off = 0x1100, 0x1400
     chan = term.channel1 if case["channel"] == 1 else term.channel2
     dev = Serial(chan)
-    # the terminal's other channel is in use as well (it never gets its
-    # initialisation accepted here, so it only keeps asking for it)
+    # the terminal's other channel is in use as well: either it never gets
+    # its initialisation accepted (it only keeps asking for it), or it carries
+    # traffic of its own (cycles2)
     dev2 = Serial(term.channel2 if case["channel"] == 1 else term.channel1)
     fds = [dev.in_read, dev.in_write, dev.out_read, dev.out_write,
            dev2.in_read, dev2.in_write, dev2.out_read, dev2.out_write]
@@ -91,174 +101,230 @@ def run_case(case):
                 pass
 
 
+class Channel:
+    """one channel of the terminal (model) and its application"""
+
+    def __init__(self, no, dev, data, ipos, opos, init_delay, stale):
+        self.no, self.dev, self.data = no, dev, data
+        self.ipos, self.opos = ipos, opos
+        # the toggle bits may be in any state when the master (re)starts,
+        # and the data field may hold an old chunk
+        data[ipos] = stale & 3
+        data[opos] = 0
+        data[ipos + 1:ipos + 24] = struct.pack(
+            "<23p", bytes([stale]) * (stale % 23)) if stale else bytes(23)
+        self.app_written = bytearray()
+        self.accepted = bytearray()   # what the terminal took from the master
+        self.announced = bytearray()  # what the terminal sent to the master
+        self.app_read = bytearray()
+        self.events = []
+        self.init_wait = init_delay
+        self.last_txreq = 0
+        self.tx_pending = None        # [chunk, cycles left, raw, request]
+        self.rx_outstanding = False
+        self.last_rxacc = 0
+        self.rx_acc_toggles = 0
+        self.tx_toggles = 0
+        self.delayed = False
+        self.connected_seen = False
+
+    def app(self, cyc):
+        for chunk in cyc["app"] or []:
+            if self.dev.connected:
+                try:
+                    os.write(self.dev.out_write, chunk)
+                except BlockingIOError:
+                    continue        # pipe full: the application would wait
+                self.app_written += chunk
+                self.events.append(f"app>{len(chunk)}")
+
+    def before(self, cyc):
+        """the terminal's side, before the master's update"""
+        data, ipos, opos, dev = self.data, self.ipos, self.opos, self.dev
+        ctrl = data[opos]
+        if not dev.connected:
+            if ctrl & 4:       # init request seen
+                if self.init_wait <= 0:
+                    data[ipos] |= 4
+                else:
+                    self.init_wait -= 1
+        else:
+            data[ipos] &= ~4 & 0xff
+        if self.tx_pending is not None:
+            # data and request must stay put until accepted
+            cur = bytes(data[opos + 1:opos + 24])
+            if cur != self.tx_pending[2] or (ctrl & 1) != self.tx_pending[3]:
+                return ("the transmit data or request changed before the "
+                        "terminal accepted it")
+            if self.tx_pending[1] <= 0:
+                self.accepted += self.tx_pending[0]
+                data[ipos] ^= 1          # mirror the toggle: accepted
+                self.events.append(f"acc{len(self.tx_pending[0])}")
+                self.tx_pending = None
+            else:
+                self.tx_pending[1] -= 1
+                self.delayed = True
+        if dev.connected and not self.rx_outstanding and cyc["term"]:
+            chunk = cyc["term"]
+            data[ipos + 1:ipos + 24] = struct.pack("<23p", chunk)
+            data[ipos] ^= 2              # receive request toggle
+            self.rx_outstanding = True
+            self.announced += chunk
+            self.events.append(f"term>{len(chunk)}")
+        return None
+
+    def after(self, cyc):
+        """what the terminal sees after the master's update"""
+        data, opos, dev = self.data, self.opos, self.dev
+        ctrl = data[opos]
+        if dev.connected and not self.connected_seen:
+            self.connected_seen = True
+            self.last_txreq = ctrl & 1
+            self.last_rxacc = (ctrl >> 1) & 1
+            self.events.append("connected")
+            return None
+        if not dev.connected:
+            return None
+        # transmit request toggled -> a new chunk is presented
+        if (ctrl & 1) != self.last_txreq:
+            self.last_txreq = ctrl & 1
+            self.tx_toggles += 1
+            if self.tx_pending is not None:
+                return ("a second transmit request was raised before the "
+                        "first chunk was accepted")
+            raw = bytes(data[opos + 1:opos + 24])
+            ln = raw[0]
+            if not 1 <= ln <= 22:
+                return f"presented chunk has length byte {ln}"
+            self.tx_pending = [raw[1:1 + ln], cyc["tx_delay"], raw, ctrl & 1]
+            self.events.append(f"req{ln}")
+        # receive accepted toggled -> the master took the chunk
+        if ((ctrl >> 1) & 1) != self.last_rxacc:
+            self.last_rxacc = (ctrl >> 1) & 1
+            self.rx_acc_toggles += 1
+            if not self.rx_outstanding:
+                return ("receive-accepted toggled without a pending receive "
+                        "request")
+            self.rx_outstanding = False
+            self.events.append("rxack")
+        # ---- application drains its pipe
+        try:
+            self.app_read += os.read(dev.in_read, 4096)
+        except BlockingIOError:
+            pass
+        return None
+
+    def final(self):
+        if not self.connected_seen:
+            return ("the channel never connected although the terminal "
+                    "accepted the initialisation")
+        if self.tx_pending is not None:
+            self.accepted += self.tx_pending[0]
+        if not self.app_read.startswith(b"A"):
+            return (f"the application did not get the connect marker: "
+                    f"{bytes(self.app_read[:4])!r}")
+        if bytes(self.accepted) != bytes(self.app_written):
+            return (f"terminal accepted {bytes(self.accepted)!r}, the "
+                    f"application wrote {bytes(self.app_written)!r}")
+        if self.rx_outstanding:
+            return ("a chunk announced by the terminal was never "
+                    "acknowledged")
+        if bytes(self.app_read[1:]) != bytes(self.announced):
+            return (f"application read {bytes(self.app_read[1:])!r}, the "
+                    f"terminal announced {bytes(self.announced)!r}")
+        return None
+
+
+IDLE = {"app": [], "term": None, "tx_delay": 0, "ack_check": True}
+
+
 def _run(case, ec, term, dev, dev2):
-    sg = SyncGroup(ec, [dev, dev2])
+    first = case.get("order", 0) == 0
+    sg = SyncGroup(ec, [dev, dev2] if first else [dev2, dev])
     sg.allocate()
     data = bytearray([case["noise"]]) * max(46, sg.packet.size)
     sg.current_data = data
     off = 24 * (case["channel"] - 1)
-    ipos = sg.pdo_assign[term][SyncManager.IN] + off
-    opos = sg.pdo_assign[term][SyncManager.OUT] + off
-    # the other channel's bytes must never change
-    other_in = sg.pdo_assign[term][SyncManager.IN] + 24 - off
-    other_out = sg.pdo_assign[term][SyncManager.OUT] + 24 - off
-    # the toggle bits may be in any state when the master (re)starts, and the
-    # data field may hold an old chunk
-    stale = case.get("stale", 0)
-    data[ipos] = stale & 3
-    data[opos] = 0
-    data[ipos + 1:ipos + 24] = struct.pack(
-        "<23p", bytes([stale]) * (stale % 23)) if stale else bytes(23)
-    data[other_in] = 0      # the other channel never accepts its init
-    data[other_out] = 0
+    base_in = sg.pdo_assign[term][SyncManager.IN]
+    base_out = sg.pdo_assign[term][SyncManager.OUT]
+    other_in, other_out = base_in + 24 - off, base_out + 24 - off
+    ch = Channel(case["channel"], dev, data, base_in + off, base_out + off,
+                 case["init_delay"], case.get("stale", 0))
+    active2 = bool(case.get("cycles2"))
+    if active2:
+        ch2 = Channel(3 - case["channel"], dev2, data, other_in, other_out,
+                      case.get("init_delay2", 0), case.get("stale2", 0))
+    else:
+        ch2 = None
+        data[other_in] = 0      # the other channel never accepts its init
+        data[other_out] = 0
+        data[other_in + 1:other_in + 24] = bytes(23)
     snapshot_other = bytes(data[other_out:other_out + 24])
 
-    app_written = bytearray()
-    accepted = bytearray()        # what the terminal took from the master
-    announced = bytearray()       # what the terminal sent to the master
-    app_read = bytearray()
-    events = []
-    # model state
-    init_wait = case["init_delay"]
-    last_txreq = 0
-    tx_pending = None             # [chunk, cycles left]
-    rx_outstanding = False
-    rx_toggles_expected = 0
-    last_rxacc = 0
-    rx_acc_toggles = 0
-    tx_toggles = 0
-    delayed = False
-    connected_seen = False
-
-    def fail(what):
+    def fail(what, c=None):
+        c = c or ch
         return dict(ok=False, nontrivial=True, classes=[],
-                    what=f"{what}; channel {case['channel']}, init delay "
-                         f"{case['init_delay']}, events {events[-14:]}")
+                    what=f"channel {c.no}: {what}; checked channel "
+                         f"{case['channel']}, the other one "
+                         f"{'carries traffic too' if active2 else 'is never initialised'}"
+                         f", init delay {case['init_delay']}, events "
+                         f"{c.events[-14:]}")
 
-    # idle cycles at the end, enough to drain what the application wrote
+    # idle cycles at the end, enough to drain what the applications wrote
     # (22 bytes per accepted chunk, a chunk every other cycle)
-    backlog = sum(len(c) for cyc in case["cycles"] for c in cyc["app"] or [])
-    cycles = list(case["cycles"]) + [
-        {"app": [], "term": None, "tx_delay": 0, "ack_check": True}] \
-        * (8 + 3 * (backlog // 22 + 2))
-    for n, cyc in enumerate(cycles):
-        # ---- application writes
-        for chunk in cyc["app"] or []:
-            if dev.connected:
-                try:
-                    os.write(dev.out_write, chunk)
-                except BlockingIOError:
-                    continue        # pipe full: the application would wait
-                app_written += chunk
-                events.append(f"app>{len(chunk)}")
-        # ---- terminal side, before the master's update
-        ctrl = data[opos]
-        if not dev.connected:
-            if ctrl & 4:       # init request seen
-                if init_wait <= 0:
-                    data[ipos] |= 4
-                else:
-                    init_wait -= 1
-        else:
-            data[ipos] &= ~4 & 0xff
-        if tx_pending is not None:
-            # data and request must stay put until accepted
-            cur = bytes(data[opos + 1:opos + 24])
-            if cur != tx_pending[2] or (ctrl & 1) != tx_pending[3]:
-                return fail("the transmit data or request changed before "
-                            "the terminal accepted it")
-            if tx_pending[1] <= 0:
-                accepted += tx_pending[0]
-                data[ipos] ^= 1          # mirror the toggle: accepted
-                events.append(f"acc{len(tx_pending[0])}")
-                tx_pending = None
-            else:
-                tx_pending[1] -= 1
-                delayed = True
-        if dev.connected and not rx_outstanding and cyc["term"]:
-            chunk = cyc["term"]
-            data[ipos + 1:ipos + 24] = struct.pack("<23p", chunk)
-            data[ipos] ^= 2              # receive request toggle
-            rx_outstanding = True
-            announced += chunk
-            events.append(f"term>{len(chunk)}")
+    scripts = [list(case["cycles"]), list(case.get("cycles2") or [])]
+    backlog = max(sum(len(c) for cyc in sc for c in cyc["app"] or [])
+                  for sc in scripts)
+    total = max(len(sc) for sc in scripts) + 8 + 3 * (backlog // 22 + 2)
+    for n in range(total):
+        cyc = scripts[0][n] if n < len(scripts[0]) else IDLE
+        cyc2 = scripts[1][n] if n < len(scripts[1]) else IDLE
+        chans = [(ch, cyc)] + ([(ch2, cyc2)] if active2 else [])
+        for c, cy in chans:
+            c.app(cy)
+        for c, cy in chans:
+            what = c.before(cy)
+            if what:
+                return fail(what, c)
         # ---- the master's cycle
         try:
-            dev.update()
-            dev2.update()
+            for d in sg.devices:
+                d.update()
         except Exception as e:
             return fail(f"Serial.update raised {type(e).__name__}: {e}")
-        ctrl = data[opos]
-        now_other = bytes(data[other_out:other_out + 24])
-        if now_other[1:] != snapshot_other[1:] \
-                or now_other[0] not in (snapshot_other[0], 4):
-            return fail("the other channel's output bytes changed (beyond "
-                        "its own initialisation request)")
-        if dev2.connected:
-            return fail("the other channel considers itself connected "
-                        "although its initialisation was never accepted")
-        if dev.connected and not connected_seen:
-            connected_seen = True
-            last_txreq = ctrl & 1
-            last_rxacc = (ctrl >> 1) & 1
-            events.append("connected")
-            continue
-        if not dev.connected:
-            continue
-        # transmit request toggled -> a new chunk is presented
-        if (ctrl & 1) != last_txreq:
-            last_txreq = ctrl & 1
-            tx_toggles += 1
-            if tx_pending is not None:
-                return fail("a second transmit request was raised before "
-                            "the first chunk was accepted")
-            raw = bytes(data[opos + 1:opos + 24])
-            ln = raw[0]
-            if not 1 <= ln <= 22:
-                return fail(f"presented chunk has length byte {ln}")
-            tx_pending = [raw[1:1 + ln], cyc["tx_delay"], raw, ctrl & 1]
-            events.append(f"req{ln}")
-        # receive accepted toggled -> the master took the chunk
-        if ((ctrl >> 1) & 1) != last_rxacc:
-            last_rxacc = (ctrl >> 1) & 1
-            rx_acc_toggles += 1
-            if not rx_outstanding:
-                return fail("receive-accepted toggled without a pending "
-                            "receive request")
-            rx_outstanding = False
-            events.append("rxack")
-        # ---- application drains its pipe
-        try:
-            got = os.read(dev.in_read, 4096)
-            app_read += got
-        except BlockingIOError:
-            pass
-    if not connected_seen:
-        return fail("the channel never connected although the terminal "
-                    "accepted the initialisation")
-    if tx_pending is not None:
-        accepted += tx_pending[0]
-    if not app_read.startswith(b"A"):
-        return fail(f"the application did not get the connect marker: "
-                    f"{bytes(app_read[:4])!r}")
-    if bytes(accepted) != bytes(app_written):
-        return fail(f"terminal accepted {bytes(accepted)!r}, the "
-                    f"application wrote {bytes(app_written)!r}")
-    if rx_outstanding:
-        return fail("a chunk announced by the terminal was never "
-                    "acknowledged")
-    if bytes(app_read[1:]) != bytes(announced):
-        return fail(f"application read {bytes(app_read[1:])!r}, the terminal "
-                    f"announced {bytes(announced)!r}")
-    both = bool(accepted) and bool(announced)
-    pattern = "".join(e[0] for e in events)
+        if not active2:
+            now_other = bytes(data[other_out:other_out + 24])
+            if now_other[1:] != snapshot_other[1:] \
+                    or now_other[0] not in (snapshot_other[0], 4):
+                return fail("the other channel's output bytes changed "
+                            "(beyond its own initialisation request)")
+            if dev2.connected:
+                return fail("the other channel considers itself connected "
+                            "although its initialisation was never accepted")
+        for c, cy in chans:
+            what = c.after(cy)
+            if what:
+                return fail(what, c)
+    for c in [ch] + ([ch2] if active2 else []):
+        what = c.final()
+        if what:
+            return fail(what, c)
+    both = bool(ch.accepted) and bool(ch.announced)
+    delayed = ch.delayed
+    pattern = "".join(e[0] for e in ch.events)
     return dict(ok=True, nontrivial=both and delayed,
-                key=repr((case["channel"], pattern, case["init_delay"])),
+                key=repr((case["channel"], pattern, case["init_delay"],
+                          "".join(e[0] for e in ch2.events)
+                          if active2 else None)),
                 classes=[f"channel={case['channel']}",
                          "both-directions" if both else "one-direction",
-                         "delayed" if delayed else "immediate"],
-                summary={"events": events[:30], "tx_toggles": tx_toggles,
-                         "rx_acks": rx_acc_toggles})
+                         "delayed" if delayed else "immediate",
+                         "other-channel-active" if active2
+                         else "other-channel-uninitialised"],
+                summary={"events": ch.events[:30],
+                         "tx_toggles": ch.tx_toggles,
+                         "rx_acks": ch.rx_acc_toggles,
+                         "other": ch2.events[:20] if active2 else None})
 
 
 KNOWN = {}
